@@ -23,6 +23,54 @@ def tok_types_table():
     return tab
 
 
+KW_HELPER = r'''
+#include "keywords.h"
+#include "standards.h"
+#include <cstdio>
+#include <set>
+#include <string>
+int main() {
+  std::set<std::string> all; bool first = true;
+  auto meet = [&](const std::unordered_set<std::string>& s) { if (first) { all.insert(s.begin(), s.end()); first = false; } else { for (auto it = all.begin(); it != all.end();) if (!s.count(*it)) it = all.erase(it); else ++it; } };
+  for (int c = Standards::C89; c <= Standards::CLatest; c++) meet(Keywords::getAll((Standards::cstd_t)c));
+  for (int c = Standards::CPP03; c <= Standards::CPPLatest; c++) meet(Keywords::getAll((Standards::cppstd_t)c));
+  for (auto& k : all) printf("%s\n", k.c_str());
+}
+'''
+
+# known finding C33/KF_NONUNIVERSAL_KEYWORD_INLINE_RESTRICT: these two table entries are not keywords in every language/standard
+KF_NONUNIVERSAL = ('inline', 'restrict')
+
+
+def universal_keywords():
+    """names that the REAL Keywords::getAll (lib/keywords.cpp, built and run natively here) lists for every C and C++ standard: only for these does
+    TokenList::isKeyword -- hence Token::update_property_info -- guarantee the token type eKeyword that a tokTypes entry of the match compiler presumes"""
+    if 'kw' in _cache:
+        return _cache['kw']
+    work = os.path.join(vlib.WORK, 'c33_gen')
+    os.makedirs(work, exist_ok=True)
+    with open(os.path.join(work, 'kw.cpp'), 'w') as fh:
+        fh.write(KW_HELPER)
+    r = subprocess.run(['g++', '-std=c++17', '-I' + os.path.join(vlib.REPO, 'lib'), os.path.join(work, 'kw.cpp'), os.path.join(vlib.REPO, 'lib', 'keywords.cpp'), '-o', os.path.join(work, 'kw')], capture_output=True, text=True)
+    if r.returncode != 0:
+        raise vlib.BuildError('keyword helper does not build against lib/keywords.cpp: ' + r.stderr[-800:])
+    out = subprocess.run([os.path.join(work, 'kw')], capture_output=True, text=True).stdout.split()
+    if len(out) < 10:
+        raise vlib.BuildError('keyword helper printed %d names' % len(out))
+    _cache['kw'] = set(out)
+    return _cache['kw']
+
+
+def unjustified(tab):
+    """name-like tokTypes entries that presume eKeyword although the tokenizer does not guarantee it ('asm' is set by Token::update_property_info itself)"""
+    uni = universal_keywords()
+    return sorted(c for c in tab if (c[0].isalpha() or c[0] == '_') and 'eKeyword' in tab[c] and c not in uni and c != 'asm')
+
+
+def word_literals(word):
+    return [a[2:] if a.startswith('!!') else a for a in word.split('|')]
+
+
 def gen():
     if 'g' in _cache:
         return _cache['g']
@@ -134,11 +182,18 @@ def wrapper_for(b):
                 it['k'], it['k'], len(cs), 1 if it['varid'] else 0, 1 if empty_alt else 0))
             hdr.append('static const char* const CAND[NCAND] = {%s};' % ', '.join('"%s"' % c.replace('\\', '\\\\').replace('"', '\\"') for c in cs))
             # representation invariant taken from the match compiler's own table: literal text => token type
-            inv = []
+            # ... but an entry that presumes eKeyword is only assumed when the real keyword sets (universal_keywords) back it
+            inv = []; inv_kf = []
+            unj = unjustified(tab)
             for j, c in enumerate(cs):
                 if c in tab:
-                    inv.append('if (j == %d) __CPROVER_assume(%s);' % (j, ' || '.join('tt == TT_%s' % t for t in tab[c])))
-            hdr.append('#define INVARIANT(j, tt) do { %s } while (0)' % ' '.join(inv))
+                    a = 'if (j == %d) __CPROVER_assume(%s);' % (j, ' || '.join('tt == TT_%s' % t for t in tab[c]))
+                    if c not in unj:
+                        inv.append(a)
+                    elif c in KF_NONUNIVERSAL:
+                        inv_kf.append(a)
+            hdr.append('#ifdef KF_NONUNIVERSAL_KEYWORD_INLINE_RESTRICT\n#define INVARIANT_KF(j, tt) do { %s } while (0)\n#else\n#define INVARIANT_KF(j, tt) do { } while (0)\n#endif' % ' '.join(inv_kf))
+            hdr.append('#define INVARIANT(j, tt) do { %s INVARIANT_KF(j, tt); } while (0)' % ' '.join(inv))
             hdr.append('#endif')
         os.makedirs(os.path.join(vlib.WORK, 'c33_%d' % b), exist_ok=True)
         with open(os.path.join(vlib.WORK, 'c33_%d' % b, 'words.h'), 'w') as fh:
@@ -161,7 +216,7 @@ def units():
 
 META = {
     'assumptions': ['ONE fabricated token per word; its text ranges over the word\'s literals, their one-character extension and truncation, and ~20 foreign texts of every token class',
-                    'token type symbolic (all 23 values) subject to the representation invariant the match compiler itself relies on (tools/matchcompiler.py tokTypes: literal text => token type); varId symbolic in 0..2 with the invariant of Token::update_property_info (varId != 0 => token type eVariable)',
+                    'token type symbolic (all 23 values) subject to the representation invariant the match compiler itself relies on (tools/matchcompiler.py tokTypes: literal text => token type); an entry that presumes eKeyword is assumed only if the real Keywords::getAll of lib/keywords.cpp (built and run natively at check time) lists the name for every C and C++ standard -- entries for operators, brackets and true/false are trusted as they stand; varId symbolic in 0..2 with the invariant of Token::update_property_info (varId != 0 => token type eVariable)',
                     'words containing quotes/backslashes or literals longer than 14 characters are skipped (counted in the evidence)',
                     'native translation validation is run for every 8th word (the generated C of one batch is shared by its 48 words)'],
     'outside': 'the sequencing of words inside a multi-word pattern (tok = tok->next() chaining, optional and negated words across tokens) and findmatch/simpleMatch call forms are outside the per-word claim; that both sides implement the documented pattern language is not examined',
@@ -174,10 +229,11 @@ def obligations(tier):
     cpath = os.path.join(os.path.dirname(os.path.dirname(os.path.abspath(__file__))), 'bounds', 'C33_common.json')
     common = json.load(open(cpath)) if os.path.exists(cpath) else {}   # warm start shared by all words (loops of Token::Match and of the harness)
     seed = int(os.environ.get('VERIF_SEED', '1') or 1)
+    unj = set(unjustified(tok_types_table()))
     for idx, it in enumerate(g['items']):
         b = idx // BATCH
         w = it['word']
-        if tier == 'quick':
+        if tier == 'quick' and not (it['kind'] == 'match' and unj & set(word_literals(w))):   # words with a keyword entry the tokenizer does not back are always checked
             # quick: a seed-rotated third of the %cmd% words and a twenty-fourth of the literal words (about 140 obligations); thorough: all words
             hv = int(hashlib.sha1(w.encode()).hexdigest(), 16) + seed
             if ('%' in w and hv % 3 != 0) or ('%' not in w and hv % 24 != 0):
